@@ -14,7 +14,7 @@ R11.re     the re-ordering constructor Euler(e, order): toMatrix33 of the result
            parametrisation; quick: representatives of the 32 classes of order pairs, thorough: all 576 pairs)
 R11.xe     extractEulerXYZ / extractEulerZYX / extractEuler(Matrix22|33) invert their builders under positive row scaling
 R11.rt     extract(toMatrix33(angles)).toMatrix33() == toMatrix33(angles) on the generic cell (cos of the middle
-           angle positive), using cos(atan2(y,x)) = x/sqrt(x^2+y^2), sin(atan2(y,x)) = y/sqrt(x^2+y^2)
+           angle positive) and on the cell of the alternative angle triple (negative; t = tan(angle/2) parametrisation), using cos(atan2(y,x)) = x/sqrt(x^2+y^2), sin(atan2(y,x)) = y/sqrt(x^2+y^2)
 """
 import math, struct
 import os
@@ -197,31 +197,18 @@ def _re_pair(job):
     try:
         ang = [agg.slot_in('a1', i, t) for i in range(3)]
         re_ = [S.out('a0', i * sz, sz, lt) for i in range(9)]; m3 = [SM.out('a0', i * sz, sz, lt) for i in range(9)]
-        ctx = P.Ctx(); ctx.cancel = True
-        install_atan2_rules(ctx)
-        orig = ctx.call
-        tk = [ctx.key(T.inp('t#%d' % i, 0, sz, lt)) for i in range(3)]
         rep_from = len(set(f[:3])) == 2
-        ctx.positive.add(tk[1])
-        def call(n):
-            if n.attr in ('cos', 'sin') and len(n.args) == 1:
-                for i in range(3):
-                    if n.args[0] is ang[i]:
-                        tt = P.patom(tk[i]); one = P.pconst(1)
-                        den = P.padd(one, P.pmul(tt, tt)); c_ = P.psub(one, P.pmul(tt, tt)); s_ = P.pscale(tt, 2)
-                        if i == 1 and not rep_from: c_, s_ = s_, c_
-                        return (c_ if n.attr == 'cos' else s_, den)
-            return orig(n)
-        ctx.call = call
-        for i in range(9):
-            a_, b_ = ctx.rat(re_[i]), ctx.rat(m3[i])
-            if not ctx.requal(a_, b_):
-                return (oid, VIOLATED, 'entry [%d][%d] of the re-ordered rotation is %s, the source rotation has %s (t_i = tan(angle_i/2))' % (i // 3, i % 3, P.show_rat(a_, ctx)[:140], P.show_rat(b_, ctx)[:140]), where)
-        return (oid, HOLDS, 'the re-ordered angles give the source rotation on the generic cell', where)
+        for negc in ((False, True) if st.get('both_cells') else (False,)):
+            ctx = tan_half_ctx(ang, t, not rep_from, mid_negative=negc)
+            for i in range(9):
+                a_, b_ = ctx.rat(re_[i]), ctx.rat(m3[i])
+                if not ctx.requal(a_, b_):
+                    return (oid, VIOLATED, 'entry [%d][%d] of the re-ordered rotation is %s, the source rotation has %s (t_i = tan(angle_i/2)%s)' % (i // 3, i % 3, P.show_rat(a_, ctx)[:140], P.show_rat(b_, ctx)[:140], ', source middle angle in the other cell' if negc else ''), where)
+        return (oid, HOLDS, 'the re-ordered angles give the source rotation on %s' % ('both cells of the source middle angle' if st.get('both_cells') else 'the generic cell'), where)
     except (P.NotPoly, PC.Undecided, vg.Unsupported, OverflowError) as e:
         return (oid, UNDECIDED, repr(e)[:300], where)
 
-def tan_half_ctx(ang, t, mid_from_half_pi):
+def tan_half_ctx(ang, t, mid_from_half_pi, mid_negative=False):
     """Ctx in which cos/sin of the listed angle nodes are rational in t_i = tan(angle_i/2); the middle angle (index 1) is
     measured from pi/2 when mid_from_half_pi, and t_1 > 0 is the generic cell; atan2 compositions expanded"""
     E, sz, lt = ELEM[t]
@@ -237,10 +224,30 @@ def tan_half_ctx(ang, t, mid_from_half_pi):
                     tt = P.patom(tk[i]); one = P.pconst(1)
                     den = P.padd(one, P.pmul(tt, tt)); c_ = P.psub(one, P.pmul(tt, tt)); s_ = P.pscale(tt, 2)
                     if i == 1 and mid_from_half_pi: c_, s_ = s_, c_
+                    if i == 1 and mid_negative:
+                        # the other cell: cos(middle) < 0 (non-repeated orders) / sin(middle) < 0 (repeated orders)
+                        if mid_from_half_pi: c_ = P.pneg(c_)
+                        else: s_ = P.pneg(s_)
                     return (c_ if n.attr == 'cos' else s_, den)
         return orig(n)
     ctx.call = call
     return ctx
+
+def roundtrip_other_cell(SM, SX, o, t, ang):
+    """toMatrix33(extract(toMatrix33(a))) == toMatrix33(a) on the cell where extract() returns the *other* angle triple
+    (cos of the middle angle negative; repeated orders: sine negative)"""
+    E, sz, lt = ELEM[t]
+    m3 = [SM.out('a0', i * sz, sz, lt) for i in range(9)]
+    xin = [agg.slot_in('a1', i, t) for i in range(9)]
+    ex = [T.subst(SX.out('a0', i * sz, sz, lt), dict(zip(xin, m3))) for i in range(3)]
+    back = [T.subst(x, dict(zip(ang, ex))) for x in m3]
+    repeated = len(set(o[:3])) == 2
+    ctx = tan_half_ctx(ang, t, not repeated, mid_negative=True)
+    for i in range(9):
+        a_, b_ = ctx.rat(back[i]), ctx.rat(m3[i])
+        if not ctx.requal(a_, b_):
+            return ('entry [%d][%d] after extract and rebuild is %s, original %s' % (i // 3, i % 3, P.show_rat(a_, ctx)[:160], P.show_rat(b_, ctx)[:160]), None, fn_where(SX.fn))
+    return (None, 'the rebuilt matrix equals the original on the cell of the alternative angle triple', fn_where(SX.fn))
 
 def check_xeuler(rep, R, t):
     """R11.xe: extractEulerXYZ / extractEulerZYX / extractEuler invert their builders (Euler(r, order).toMatrix44(),
@@ -274,9 +281,9 @@ def check_xeuler(rep, R, t):
         except (P.NotPoly, PC.Undecided, vg.Unsupported, OverflowError) as e:
             rep.ob(oid, 'R11.xe', UNDECIDED, repr(e)[:300], where)
 
-def check_reorder(rep, R, RM, t, pairs):
+def check_reorder(rep, R, RM, t, pairs, both_cells=False):
     import multiprocessing
-    _RE[t] = dict(t=t, R=R, RM=RM)
+    _RE[t] = dict(t=t, R=R, RM=RM, both_cells=both_cells)
     jobs = [(t, f, o) for f, o in pairs]
     # heavy (repeated -> repeated) pairs first so that the pool drains evenly
     jobs.sort(key=lambda j: -(len(set(j[1][:3])) == 2 and len(set(j[2][:3])) == 2))
@@ -295,7 +302,7 @@ def main(rep, ws, tier):
     for tn, t in zip(tun, types):
         check_near(rep, an[tn], t)
     for tr, tu, t in zip(tur, tus, types):
-        check_reorder(rep, an[tr], an[tu], t, pairs)
+        check_reorder(rep, an[tr], an[tu], t, pairs, both_cells=(tier != 'quick'))
     rep.floor('re-ordering constructor pairs', sum(1 for o in rep.obs if o['rule'] == 'R11.re'), len(pairs) * len(types))
     for tu, t in zip(tus, types):
         R = an[tu]; E, sz, lt = ELEM[t]
@@ -376,6 +383,9 @@ def main(rep, ws, tier):
                 def rt_():
                     return roundtrip(S_('w_m33_' + o), S_('w_x33_' + o), o, t, ang)
                 ob('extract o toMatrix33', 'R11.rt', rt_)
+                def rt2_():
+                    return roundtrip_other_cell(S_('w_m33_' + o), S_('w_x33_' + o), o, t, ang)
+                ob('extract o toMatrix33 [other cell]', 'R11.rt', rt2_)
         # XYZ == setEulerAngles
         try:
             m4 = outs(S_('w_m44_XYZ'), 16); se = outs(S_('w_seteuler'), 16)
